@@ -127,6 +127,9 @@ def check(ctx) -> None:
     ctx.rule("C03.registered", "MUST-CALL: every predicate visitor registers a predicate; visit_node falls through to the bool-based visitor", floor=15)
     ctx.rule("C03.goals", "both outcomes are goals; is_covered reads the distance map of its outcome; exception matching == issubclass incl. tuples", floor=8)
     ctx.rule("C03.fresh", "ABSINT: after reset() the recording trace holds nothing recorded before; init_trace / store_import_trace start from the import trace only", floor=3)
+    ctx.rule("C03.isolation", "ABSINT: the outcomes one execution / one test records do not reach the import trace, a later execution or another test's result (init_trace, analyze_results interpreted over traces of the ExecutionTrace class)", floor=3)
+    from sa.checks.c02 import _isolation
+    _isolation(ctx, repo, "C03.isolation")
     ctx.rule("C03.restore", "PAIR-FINALLY: temporarily_disable/enable restore the previous tracing state on every exit; callbacks compute under temporarily_disable", floor=5)
 
     try:
